@@ -288,7 +288,7 @@ def opHandlers (s : State) : Op → Option (Kind × List (Name × Hid))
 theorem step_cases {s s' : State} {op : Op} {names : List Name} (h : step s op = .ok (s', names)) :
     (∃ k hs, opHandlers s op = some (k, hs) ∧ reg s k hs = .ok (s', names)) ∨
     (opHandlers s op = none ∧ names = [] ∧ s'.call = s.call ∧ s'.push = s.push ∧
-      (∀ k, s'.unk k = s.unk k ∨ ∃ u, op = .setUnknown k 0 u ∧ s'.unk k = some u)) := by
+      (∀ k, s'.unk k = s.unk k ∨ ∃ g u, op = .setUnknown k g u ∧ s'.unk k = some u)) := by
   cases op with
   | subRoute parent pfx =>
     right
@@ -333,18 +333,13 @@ theorem step_cases {s s' : State} {op : Op} {names : List Name} (h : step s op =
     cases hg : s.groups[g]? with
     | none => simp [hg] at h
     | some pfx =>
-      simp only [hg] at h
-      by_cases g0 : g = 0
-      · simp only [g0, if_true, Except.ok.injEq, Prod.mk.injEq] at h
-        obtain ⟨rfl, rfl⟩ := h
-        refine ⟨rfl, rfl, by cases k <;> rfl, by cases k <;> rfl, ?_⟩
-        intro k'
-        rcases kind_eq_or_other k k' with e | e
-        · subst e; subst g0; exact Or.inr ⟨u, rfl, by simp⟩
-        · subst e; exact Or.inl (by simp)
-      · simp only [g0, if_false, Except.ok.injEq, Prod.mk.injEq] at h
-        obtain ⟨rfl, rfl⟩ := h
-        exact ⟨rfl, rfl, rfl, rfl, fun _ => Or.inl rfl⟩
+      simp only [hg, Except.ok.injEq, Prod.mk.injEq] at h
+      obtain ⟨rfl, rfl⟩ := h
+      refine ⟨rfl, rfl, by cases k <;> rfl, by cases k <;> rfl, ?_⟩
+      intro k'
+      rcases kind_eq_or_other k k' with e | e
+      · subst e; exact Or.inr ⟨g, u, rfl, by simp⟩
+      · subst e; exact Or.inl (by simp)
 
 /-- a route operation is `reg` applied to its handler list. -/
 theorem step_eq_reg {s : State} {op : Op} {k : Kind} {hs : List (Name × Hid)}
@@ -434,9 +429,10 @@ def regPairs (k : Kind) : List Op → List (List Name) → List (Name × Hid)
   | op :: ops, names :: rets => names.zip (op.hids k) ++ regPairs k ops rets
   | _, _ => []
 
-/-- effect of one operation on the unknown-handler slot that dispatch reads. -/
+/-- effect of one operation on the unknown-handler slot that dispatch reads: a `SetUnknown*` of that
+    namespace through ANY router of the peer replaces it. -/
 def unkStep (k : Kind) (cur : Option Hid) : Op → Option Hid
-  | .setUnknown k' g u => if k' = k ∧ g = 0 then some u else cur
+  | .setUnknown k' _ u => if k' = k then some u else cur
   | _ => cur
 
 theorem zip_keys_snd : ∀ hs : List (Name × Hid), (keys hs).zip (hs.map (·.2)) = hs
@@ -558,26 +554,21 @@ theorem step_unk {s s' : State} {op : Op} {names : List Name} (h : step s op = .
       cases hg : s.groups[g]? with
       | none => simp [hg] at h
       | some pfx =>
-        simp only [hg] at h
-        by_cases g0 : g = 0
-        · simp only [g0, if_true, Except.ok.injEq, Prod.mk.injEq] at h
-          obtain ⟨rfl, _⟩ := h
-          rcases kind_eq_or_other k' k with e | e
-          · subst e; simp [unkStep, g0]
-          · subst e; simp [unkStep, (other_ne k').symm]
-        · simp only [g0, if_false, Except.ok.injEq, Prod.mk.injEq] at h
-          obtain ⟨rfl, _⟩ := h
-          simp [unkStep, g0]
+        simp only [hg, Except.ok.injEq, Prod.mk.injEq] at h
+        obtain ⟨rfl, _⟩ := h
+        rcases kind_eq_or_other k' k with e | e
+        · subst e; simp [unkStep]
+        · subst e; simp [unkStep, (other_ne k').symm]
     | subRoute a b =>
-      rcases hu k with e | ⟨u, e, _⟩
+      rcases hu k with e | ⟨_, u, e, _⟩
       · simpa [unkStep] using e
       · cases e
     | routeStruct a b c d =>
-      rcases hu k with e | ⟨u, e, _⟩
+      rcases hu k with e | ⟨_, u, e, _⟩
       · simpa [unkStep] using e
       · cases e
     | routeFunc a b c d =>
-      rcases hu k with e | ⟨u, e, _⟩
+      rcases hu k with e | ⟨_, u, e, _⟩
       · simpa [unkStep] using e
       · cases e
 
